@@ -62,4 +62,18 @@ theorem drift_source_as_modelled :
     Gen.polyTmaxExpr = "float(np.abs(frametimes).max())" := by
   decide
 
+/-- the cosine drift columns are computed by the expressions `Props/C07Drift.lean` is about:
+    sample index `t = 0 … len_tim - 1`, column `k - 1` (for `k = 1 … order - 1`) equal to
+    `sqrt(2 / len_tim) * cos(pi / len_tim * (t + 0.5) * k)` (`cosDriftCol len_tim k t`), last column `1`
+    (`cosDriftEntry`) -/
+theorem cosine_source_as_modelled :
+    Gen.cosineExprs =
+      [("len_tim", "len(frametimes)"),
+       ("n_times", "np.arange(len_tim)"),
+       ("nfct", "np.sqrt(2.0 / len_tim)"),
+       ("cdrift[:, k - 1]", "nfct * np.cos(np.pi / len_tim * (n_times + 0.5) * k)"),
+       ("cdrift[:, order - 1]", "1.0"),
+       ("for k in", "range(1, order)")] := by
+  decide
+
 end NipyVerif.C07
